@@ -165,7 +165,7 @@ impl PropImpl for C01 {
         vec!["inputs are valid UTF-8 (&str API); Read-based entry points are fed the same bytes".into()]
     }
     fn expected_labels(&self) -> Vec<&'static str> {
-        vec!["linestart/KEYCH", "linestart/MULTIBYTE", "linestart/CTRL", "linestart/DASH", "linestart/COLON", "linestart/HASH", "linestart/SP", "linestart/TAB", "linestart/LF", "linestart/CR", "afterindent/HASH", "afterindent/COLON", "afterindent/MULTIBYTE", "inkey/COLON", "inkey/MULTIBYTE", "inkey/CR", "invalue/CR", "invalue/MULTIBYTE", "incomment/CR", "tolerant-reader-reports-errors", "error-free", "origin:mutated-doc", "origin:multi-byte-character-across-a-block-boundary"]
+        vec!["linestart/KEYCH", "linestart/MULTIBYTE", "linestart/CTRL", "linestart/DASH", "linestart/COLON", "linestart/HASH", "linestart/SP", "linestart/TAB", "linestart/LF", "linestart/CR", "afterindent/HASH", "afterindent/COLON", "afterindent/MULTIBYTE", "inkey/COLON", "inkey/MULTIBYTE", "inkey/CR", "invalue/CR", "invalue/MULTIBYTE", "incomment/CR", "tolerant-reader-reports-errors", "error-free", "origin:mutated-doc", "origin:multi-byte-character-across-a-block-boundary", "origin:thousands-of-malformed-lines"]
     }
     fn budget(&self, tier: Tier) -> Budget {
         Budget { cases_per_lane: if tier == Tier::Quick { 20000 } else { 100_000 }, tape_max: 600, cpu_s: 10 }
@@ -205,6 +205,15 @@ impl PropImpl for C01 {
             text.push_str("\nB: c\n");
             return Case { text, origin: "block-boundary" };
         }
+        if t.chance(1, 60) {
+            // (X) a document with very many malformed lines (around and beyond 1000 / 4096 / 65536 parser errors), then more
+            // text: error-recovery limits and give-up paths must not alter what is printed
+            let n = *t.pick(&[100usize, 999, 1000, 1001, 1500, 4096, 5000, 70000]);
+            let bad = *t.pick(&["-\n", ":\n", "-", "é\n", " x\n", "\u{1}\n"]);
+            let mut text = bad.repeat(n);
+            text.push_str(*t.pick(&["\nPackage: foo\nVersion: 1\n\nA: b\n c\n", "A: b\n", "\n# c\nX: y", ""]));
+            return Case { text, origin: "many-errors" };
+        }
         if t.flag() {
             // (M) mutated well-formed document
             let d = doc::gen_doc(t, &doc::DocOpts::default());
@@ -226,6 +235,7 @@ impl PropImpl for C01 {
             "mutated-doc" => "origin:mutated-doc",
             "text" => "origin:text",
             "block-boundary" => "origin:multi-byte-character-across-a-block-boundary",
+            "many-errors" => "origin:thousands-of-malformed-lines",
             _ => "origin:random",
         });
     }
